@@ -17,6 +17,7 @@ import (
 	fxtypes "github.com/functionx/fx-core/v8/types"
 	crosschaintypes "github.com/functionx/fx-core/v8/x/crosschain/types"
 	ibcmwtypes "github.com/functionx/fx-core/v8/x/ibc/middleware/types"
+	trontypes "github.com/functionx/fx-core/v8/x/tron/types"
 )
 
 func (h *harness) hostileString() string {
@@ -131,8 +132,74 @@ func (h *harness) stageMemos() {
 	}
 }
 
+// sigLengths: every byte length 0..70 plus two long ones — the signature helpers read fixed offsets of attacker bytes
+func sigLengths() []int {
+	var ls []int
+	for i := 0; i <= 70; i++ {
+		ls = append(ls, i)
+	}
+	return append(ls, 128, 1000)
+}
+
+// sigBytes: a signature-shaped byte string of length n; variant selects the recovery byte / filling
+func (h *harness) sigBytes(n, variant int) []byte {
+	b := randBytes(h.r, n)
+	switch variant {
+	case 1:
+		for i := range b {
+			b[i] = 0
+		}
+	case 2:
+		if n > 0 {
+			b[n-1] = 27
+		}
+	case 3:
+		if n > 0 {
+			b[n-1] = 28
+		}
+	case 4:
+		if n > 64 {
+			b[64] = 27
+		}
+	}
+	return b
+}
+
+// stageSignatureHelpers: the per-chain signature helpers the confirm handlers hand attacker bytes to, called directly
+// over the whole length sweep (they index signature[64]).
+func (h *harness) stageSignatureHelpers() {
+	hash := randBytes(h.r, 32)
+	for _, n := range sigLengths() {
+		for variant := 0; variant < 5; variant++ {
+			sig := h.sigBytes(n, variant)
+			in := fmt.Sprintf("len=%d variant=%d", n, variant)
+			calls := map[string]func() error{
+				"trontypes.TronAddressFromSignature": func() error { _, err := trontypes.TronAddressFromSignature(hash, append([]byte{}, sig...)); return err },
+				"trontypes.ValidateTronSignature":    func() error { return trontypes.ValidateTronSignature(hash, append([]byte{}, sig...), h.p.tronOK[0]) },
+				"crosschaintypes.EthAddressFromSignature": func() error {
+					_, err := crosschaintypes.EthAddressFromSignature(hash, append([]byte{}, sig...))
+					return err
+				},
+				"crosschaintypes.ValidateEthereumSignature": func() error {
+					return crosschaintypes.ValidateEthereumSignature(hash, append([]byte{}, sig...), h.p.ethOK[0])
+				},
+			}
+			for name, f := range calls {
+				o := guard(f)
+				h.rep.Count("str:" + name + ":" + o.Class)
+				h.rep.Case(fmt.Sprintf("sig|%s|%s|%d", name, o.Class, n), true)
+				if o.Class == "panic" {
+					h.fail("parse", "recovered-by-baseapp", o, name+" panics on a "+fmt.Sprint(n)+"-byte signature",
+						map[string]interface{}{"stage": "strings", "function": name, "signature_hex": hex.EncodeToString(sig), "input": in, "panic": o.Msg, "top_frame": o.Top})
+				}
+			}
+		}
+	}
+}
+
 func (h *harness) stageStrings() {
 	h.stageMemos()
+	h.stageSignatureHelpers()
 	chains := append(crosschaintypes.GetSupportChains(), "", "nochain", "ETH")
 	n := 1500 * h.scale
 	for i := 0; i < n; i++ {
